@@ -99,3 +99,6 @@ pub mod preprocessing;
 pub mod svm;
 /// Supervised tree-based learning methods
 pub mod tree;
+/// Verification hooks, compiled only with `--cfg smartcore_verif`
+#[cfg(smartcore_verif)]
+pub mod verif;
